@@ -1,7 +1,11 @@
 use crate::{
     cf_types::CfRule,
     expressions::{
-        parser::move_formula::{move_formula, ref_is_in_area, MoveContext},
+        parser::{
+            move_formula::{move_formula, ref_is_in_area, MoveContext},
+            stringify::to_localized_string,
+            Node,
+        },
         types::{Area, CellReferenceRC},
         utils,
     },
@@ -146,6 +150,101 @@ pub(crate) fn cf_sqref_anchor(sqref: &str) -> Option<(i32, i32)> {
     Some((r.row, r.column))
 }
 
+/// Points every reference to a cell of `area` (and every range with both corners in it)
+/// at the place on sheet `target` the area was moved to. `host` is the cell holding the formula.
+fn retarget_references(
+    node: &mut Node,
+    host: (i32, i32),
+    area: &Area,
+    target: (u32, &str),
+    delta: (i32, i32),
+) {
+    match node {
+        Node::ReferenceKind {
+            sheet_name,
+            sheet_index,
+            absolute_row,
+            absolute_column,
+            row,
+            column,
+        } => {
+            let r = if *absolute_row { *row } else { *row + host.0 };
+            let c = if *absolute_column {
+                *column
+            } else {
+                *column + host.1
+            };
+            if ref_is_in_area(*sheet_index, r, c, area) {
+                *sheet_index = target.0;
+                *sheet_name = Some(target.1.to_string());
+                *row += delta.0;
+                *column += delta.1;
+            }
+        }
+        Node::RangeKind {
+            sheet_name,
+            sheet_index,
+            absolute_row1,
+            absolute_column1,
+            row1,
+            column1,
+            absolute_row2,
+            absolute_column2,
+            row2,
+            column2,
+        } => {
+            let r1 = if *absolute_row1 { *row1 } else { *row1 + host.0 };
+            let c1 = if *absolute_column1 {
+                *column1
+            } else {
+                *column1 + host.1
+            };
+            let r2 = if *absolute_row2 { *row2 } else { *row2 + host.0 };
+            let c2 = if *absolute_column2 {
+                *column2
+            } else {
+                *column2 + host.1
+            };
+            if ref_is_in_area(*sheet_index, r1, c1, area)
+                && ref_is_in_area(*sheet_index, r2, c2, area)
+            {
+                *sheet_index = target.0;
+                *sheet_name = Some(target.1.to_string());
+                *row1 += delta.0;
+                *column1 += delta.1;
+                *row2 += delta.0;
+                *column2 += delta.1;
+            }
+        }
+        Node::OpRangeKind { left, right }
+        | Node::OpConcatenateKind { left, right }
+        | Node::OpSumKind { left, right, .. }
+        | Node::OpProductKind { left, right, .. }
+        | Node::OpPowerKind { left, right }
+        | Node::CompareKind { left, right, .. } => {
+            retarget_references(left, host, area, target, delta);
+            retarget_references(right, host, area, target, delta);
+        }
+        Node::UnaryKind { right, .. } => retarget_references(right, host, area, target, delta),
+        Node::FunctionKind { args, .. } | Node::NamedFunctionKind { args, .. } => {
+            for arg in args {
+                retarget_references(arg, host, area, target, delta);
+            }
+        }
+        Node::LambdaDefKind { body, .. } => retarget_references(body, host, area, target, delta),
+        Node::LambdaCallKind { lambda, args } => {
+            retarget_references(lambda, host, area, target, delta);
+            for arg in args {
+                retarget_references(arg, host, area, target, delta);
+            }
+        }
+        Node::ImplicitIntersection { child, .. } | Node::SpillRangeOperator { child } => {
+            retarget_references(child, host, area, target, delta)
+        }
+        _ => {}
+    }
+}
+
 // ---------------------------------------------------------------------------
 // Model methods
 // ---------------------------------------------------------------------------
@@ -160,14 +259,16 @@ impl<'a> Model<'a> {
     pub(crate) fn get_external_formula_updates_for_cut(
         &mut self,
         area: &Area,
+        target_sheet: u32,
         target_row: i32,
         target_column: i32,
     ) -> Result<Vec<(u32, i32, i32, String)>, String> {
         let row_delta = target_row - area.row;
         let column_delta = target_column - area.column;
-        if row_delta == 0 && column_delta == 0 {
+        if row_delta == 0 && column_delta == 0 && target_sheet == area.sheet {
             return Ok(vec![]);
         }
+        let target_sheet_name = self.workbook.worksheet(target_sheet)?.get_name();
 
         let num_sheets = self.workbook.worksheets.len();
 
@@ -218,6 +319,23 @@ impl<'a> Model<'a> {
                 column: col,
             };
             let node = self.parser.parse(&formula_body, &cell_ref);
+            if target_sheet != area.sheet {
+                // The cells went to another sheet: the references to them name that sheet
+                let mut moved = node.clone();
+                retarget_references(
+                    &mut moved,
+                    (row, col),
+                    area,
+                    (target_sheet, &target_sheet_name),
+                    (row_delta, column_delta),
+                );
+                if moved != node {
+                    let new_body =
+                        to_localized_string(&moved, &cell_ref, self.locale, self.language);
+                    updates.push((ws_idx_u32, row, col, format!("={new_body}")));
+                }
+                continue;
+            }
             let new_body = move_formula(
                 &node,
                 &MoveContext {
